@@ -121,6 +121,13 @@ RULE = (
     "Oracle only: arrays held by grid objects (UniformInteger int64 points, a transformed radial grid, the points of an off-centre AtomGrid, the loader's arrays), "
     "every documented way of handing over the arguments, one array through different entry points, rejected calls between accepted ones (and an unreadable resource "
     "on a cold start of the loader), sqrt(alpha) r where erf saturates / exp underflows, the shipped contractions along a ray from the nucleus. "
+    "Round 5: 1025 (descending) and 4097 (shuffled) radii in one call with r = 0 / sub-switch radii right after every 2^k and {1,2,5} 10^k position, entry by entry; "
+    "coulomb_potential on 1025 points and on 33 + 17 functions; radii as longdouble / float32 / float16 / int64 / uint8 / int16 arrays. Oracle only: 1025 / 4097 / 20001 radii "
+    "(thorough: 31234, 65537, 2^19 + 1) in random / ascending / descending order and 1025 / 4097 points, 33 / 129 s functions (thorough: 65537 and 2^19 + 1 points, 1025 functions) "
+    "against additivity over an unequal split (exact for points, to rounding for functions), single calls, shuffled / reversed inputs and the closed form on sampled entries; "
+    "the descending points of MultiExp-transformed grids; every array argument as longdouble / float32 / float16 (float64 answer, argument unchanged, second call equal); the "
+    "same array objects edited in place between calls (scale / re-assign / one entry; each of the seven arrays in turn, and the radii); a fixed battery in this process after "
+    "everything else against a fresh interpreter (loader elements in the opposite order). "
     "Non-trivial = a scalar case with "
     "0 < sqrt(alpha) r < 6 (erf neither 0 nor saturated) or r within a factor 4 of the switch threshold; a multi-centre case with "
     ">= 2 functions and >= 1 point; a loader case whose text differs from the stored key or that starts from an empty cache"
@@ -149,6 +156,9 @@ ASSUMPTIONS = [
     "in both frames); for generic far-away coordinates the distance itself carries the rounding of the inputs, which is not the library's doing",
     "round 4, information: complex coefficient arrays are converted by np.asarray(..., dtype=float) with a ComplexWarning, the imaginary part is dropped (the documentation says "
     "real coefficients; class 17 has no callback here); close-centre cases below delta = 1e-10 use exponents <= 1e8 (radii reach the small-r switch, see the round-3 envelope)",
+    "round 5, information: alpha given as an np.longdouble scalar (or 0-d longdouble array) makes both closed forms raise TypeError from scipy.special.erf (no long-double loop; "
+    "alpha is never coerced; the documented type is float) -- recorded as a tag, not asserted; longdouble radii / points / centres / coefficients / exponent ARRAYS are coerced "
+    "by np.asarray(..., dtype=float) and are asserted. Class 24 (parameters independent of the data) has no object here: alpha and r are sampled independently since round 1",
     "corr and oracle run as independent parts (_Parts): an exception raised by the library inside a part is recorded as `<part>:raises`, a driver / harness exception is "
     "re-raised after all parts have run",
     "alpha given as np.float32 is computed in single precision by NumPy (deviation ~3e-8, docstring says float): pinned with rtol 1e-6, information only",
@@ -289,6 +299,7 @@ def corr(ctx: Ctx):
     parts.run("load_atomic_gaussian_params", _corr_loader, ctx, cb, utils, raw)
     # -- round 4 ---------------------------------------------------------------------
     parts.run("round4", _corr_round4, ctx, cb, utils, thr, parts)
+    parts.run("round5", _corr_round5, ctx, cb, thr)
     parts.finish()
 
 
@@ -2505,6 +2516,510 @@ def _oracle_round4(ctx: Ctx, cb, utils, thr, large, parts):
         parts.run(key, fn)
 
 
+# ----------------------------------------------------------------------------
+# round 5: sizes past block boundaries, orders, precisions given directly, in-place edits between calls, fresh process
+# ----------------------------------------------------------------------------
+BIG_SIZES_QUICK = (1025, 4097, 20001)
+BIG_SIZES_THOROUGH = (31234, 65537, 2 ** 19 + 1)
+
+
+def _big_radii(ctx: Ctx, n, a, thr):
+    """n radii for exponent a: r = 0 / below the switch / at the switch at the two ends and right after every power-of-two and
+    {1,2,5} 10^k position (where a dropped remainder would start), otherwise sqrt(a) r log-uniform over 1e-3 .. 10."""
+    rs = np.exp(ctx.np_rng.uniform(math.log(1e-3), math.log(10.0), n)) / math.sqrt(a)
+    special = [0.0, 1e-13, thr, 0.5 / math.sqrt(a)]
+    marks = sorted({m for k in range(20) for m in (2 ** k, 10 ** (k // 3) * (1, 2, 5)[k % 3]) if m < n} | {n - 1, n - 2, 0})
+    for j, m in enumerate(marks):
+        rs[m] = special[j % len(special)]
+    return rs
+
+
+def _sample_idx(ctx: Ctx, n, k=40):
+    marks = {m for q in range(20) for m in (2 ** q - 1, 2 ** q, 10 ** (q // 3) * (1, 2, 5)[q % 3]) if 0 <= m < n} | {0, n - 1, n - 2}
+    return sorted(marks | {ctx.rng.randrange(n) for _ in range(k)})
+
+
+SNIPPET_BIG = """import warnings; warnings.filterwarnings('ignore')
+import mpmath as mp, numpy as np
+from grid.coulomb import coulomb_gaussian_s, coulomb_gaussian_p
+mp.mp.dps = 30
+kind, n, a, nz, seed, order = {kind!r}, {n!r}, {a!r}, {nz!r}, {seed!r}, {order!r}
+f = coulomb_gaussian_s if kind == 's' else coulomb_gaussian_p
+rng = np.random.default_rng(seed)
+r = np.exp(rng.uniform(np.log(1e-3), np.log(10.0), n)) / np.sqrt(a)
+r[[0, n // 2, n - 1]] = [0.0, 1e-13, 0.5 / np.sqrt(a)]
+if order == 'descending':
+    r = np.sort(r)[::-1].copy()
+elif order == 'ascending':
+    r = np.sort(r)
+keep = r.copy()
+got = f(r, a, normalized=nz)
+assert got.shape == (n,), got.shape
+cut = (2 * n) // 3 + 1
+parts = np.concatenate([f(keep[:cut].copy(), a, normalized=nz), f(keep[cut:].copy(), a, normalized=nz)])
+bad = np.flatnonzero(got != parts)
+assert bad.size == 0, f'{{n}} radii at once differ from the two parts [:{{cut}}] / [{{cut}}:] at indices {{bad[:5].tolist()}} (first: r={{keep[bad[0]]!r}}: {{got[bad[0]]!r}} vs {{parts[bad[0]]!r}})'
+single = np.array([f(float(x), a, normalized=nz)[0] for x in keep[-40:]])
+assert np.array_equal(got[-40:], single), 'the last 40 entries differ from the calls on single radii'
+assert np.array_equal(r, keep), 'the radii were modified'
+"""
+
+
+def _check_big_scalar(ctx: Ctx, cb, kind, n, a, nz, order, thr):
+    """n radii at once == the two unequal parts == single calls on sampled entries == closed form on a sample; `order`:
+    random / ascending / descending."""
+    mp = _mp()
+    fn = cb.coulomb_gaussian_s if kind == "s" else cb.coulomb_gaussian_p
+    seed = ctx.rng.randrange(2 ** 31)
+    rng = np.random.default_rng(seed)
+    r = np.exp(rng.uniform(np.log(1e-3), np.log(10.0), n)) / np.sqrt(a)
+    r[[0, n // 2, n - 1]] = [0.0, 1e-13, 0.5 / np.sqrt(a)]
+    if order == "descending":
+        r = np.sort(r)[::-1].copy()
+    elif order == "ascending":
+        r = np.sort(r)
+    keep = r.copy()
+    snippet = SNIPPET_BIG.format(kind=kind, n=n, a=a, nz=nz, seed=seed, order=order)
+    key = f"coulomb.coulomb_gaussian_{kind}:large-array"
+    desc = f"coulomb_gaussian_{kind} on {n} radii ({order} order, numpy default_rng({seed}) recipe of the replay), alpha={a!r}, normalized={nz}"
+    with np.errstate(all="ignore"):
+        got = fn(r, a, normalized=nz)
+        cut = (2 * n) // 3 + 1
+        two = np.concatenate([fn(keep[:cut].copy(), a, normalized=nz), fn(keep[cut:].copy(), a, normalized=nz)])
+    if got.shape != (n,) or not np.array_equal(r, keep):
+        ctx.fail("oracle", key, f"{desc}: result of shape {got.shape}" + ("" if np.array_equal(r, keep) else "; the radii were modified"), witness={"n": n, "alpha": a}, snippet=snippet)
+        return True
+    bad = np.flatnonzero(got != two)
+    if bad.size:
+        i = int(bad[0])
+        ctx.fail("oracle", key, f"{desc}: entry {i} of the full call (r={float(keep[i])!r}) is {float(got[i])!r}, the same radius in a call on the part "
+                 f"[{'0' if i < cut else cut}:{cut if i < cut else n}] gives {float(two[i])!r}; {bad.size} entries differ, from index {i} to {int(bad[-1])}",
+                 witness={"n": n, "alpha": a, "normalized": nz, "index": i, "r": float(keep[i]), "full": float(got[i]), "part": float(two[i])}, snippet=snippet)
+        return True
+    for i in _sample_idx(ctx, n):
+        ref = _closed_form_mp(kind, a, float(keep[i]), nz)
+        if not abs(float(got[i]) - ref) <= 1e-10 * abs(ref):
+            ctx.fail("oracle", key, f"{desc}: entry {i} (r={float(keep[i])!r}) is {float(got[i])!r}, closed form {mp.nstr(ref, 17)}",
+                     witness={"n": n, "alpha": a, "normalized": nz, "index": i, "r": float(keep[i])}, snippet=snippet)
+            return True
+    return False
+
+
+SNIPPET_BIG_POT = """import warnings; warnings.filterwarnings('ignore')
+import numpy as np
+from grid.coulomb import coulomb_potential
+n, ks, kp, nz, seed = {n!r}, {ks!r}, {kp!r}, {nz!r}, {seed!r}
+rng = np.random.default_rng(seed)
+P = rng.uniform(-3, 3, (n, 3)); CS = rng.uniform(-2, 2, (ks, 3)); KS = rng.uniform(-2, 2, ks); AS = 10.0 ** rng.uniform(-2, 4, ks)
+CP = rng.uniform(-2, 2, (kp, 3)); KP = rng.uniform(-2, 2, kp); AP = 10.0 ** rng.uniform(-2, 3, kp)
+P[[0, n - 1]] = [CS[0], CS[-1]]
+full = coulomb_potential(P, CS, KS, AS, CP, KP, AP, normalized=nz)
+assert full.shape == (n,)
+cut = (2 * n) // 3 + 1
+two = np.concatenate([coulomb_potential(P[:cut], CS, KS, AS, CP, KP, AP, normalized=nz), coulomb_potential(P[cut:], CS, KS, AS, CP, KP, AP, normalized=nz)])
+bad = np.flatnonzero(full != two)
+assert bad.size == 0, f'{{n}} points at once differ from the two parts at indices {{bad[:5].tolist()}}: {{full[bad[0]]!r}} vs {{two[bad[0]]!r}}'
+kc = (2 * ks) // 3 + 1
+split = coulomb_potential(P, CS[:kc], KS[:kc], AS[:kc], normalized=nz) + coulomb_potential(P, CS[kc:], KS[kc:], AS[kc:], CP, KP, AP, normalized=nz) if kc < ks else full
+scale = np.abs(coulomb_potential(P, CS, np.abs(KS), AS, CP, np.abs(KP), AP, normalized=nz))
+bad = np.flatnonzero(np.abs(full - split) > 1e-12 * scale + 1e-300)
+assert bad.size == 0, f'all {{ks}} s functions at once differ from the sum over the two parts [:{{kc}}] / [{{kc}}:] at points {{bad[:5].tolist()}}: {{full[bad[0]]!r}} vs {{split[bad[0]]!r}}'
+perm = rng.permutation(n)
+assert np.array_equal(coulomb_potential(P[perm], CS, KS, AS, CP, KP, AP, normalized=nz), full[perm]), 'shuffled points do not give the shuffled result'
+"""
+
+
+def _check_big_pot(ctx: Ctx, cb, n, ks, kp, nz):
+    """N points past a block boundary (and Ks centres past one): additivity over a split of the points (exact) and of the centres
+    (to rounding), shuffled / reversed points (exact), reversed centres (to rounding), sampled entries against the exact-distance sum."""
+    seed = ctx.rng.randrange(2 ** 31)
+    rng = np.random.default_rng(seed)
+    P = rng.uniform(-3, 3, (n, 3)); CS = rng.uniform(-2, 2, (ks, 3)); KS = rng.uniform(-2, 2, ks); AS = 10.0 ** rng.uniform(-2, 4, ks)
+    CP = rng.uniform(-2, 2, (kp, 3)); KP = rng.uniform(-2, 2, kp); AP = 10.0 ** rng.uniform(-2, 3, kp)
+    P[[0, n - 1]] = [CS[0], CS[-1]]
+    snippet = SNIPPET_BIG_POT.format(n=n, ks=ks, kp=kp, nz=nz, seed=seed)
+    desc = f"coulomb_potential with {n} points, {ks} s and {kp} p functions (numpy default_rng({seed}) recipe of the replay), normalized={nz}"
+    key = "coulomb.coulomb_potential:large-arrays"
+    call = lambda p, c, k, a, *rest: cb.coulomb_potential(p, c, k, a, *rest, normalized=nz)  # noqa: E731
+    with np.errstate(all="ignore"):
+        full = call(P, CS, KS, AS, CP, KP, AP)
+        cut = (2 * n) // 3 + 1
+        two = np.concatenate([call(P[:cut], CS, KS, AS, CP, KP, AP), call(P[cut:], CS, KS, AS, CP, KP, AP)])
+        scale = np.abs(cb.coulomb_potential(P, CS, np.abs(KS), AS, CP, np.abs(KP), AP, normalized=nz))
+    if full.shape != (n,):
+        ctx.fail("oracle", key, f"{desc}: result of shape {full.shape}", witness={"n": n, "ks": ks, "kp": kp}, snippet=snippet)
+        return True
+    bad = np.flatnonzero(full != two)
+    if bad.size:
+        i = int(bad[0])
+        ctx.fail("oracle", key, f"{desc}: entry {i} (point {P[i].tolist()}) of the full call is {float(full[i])!r}, the same point in a call on the part of the points gives "
+                 f"{float(two[i])!r}; {bad.size} entries differ (indices {i} .. {int(bad[-1])})", witness={"n": n, "ks": ks, "kp": kp, "index": i}, snippet=snippet)
+        return True
+    kc = (2 * ks) // 3 + 1
+    if kc < ks:
+        with np.errstate(all="ignore"):
+            split = call(P, CS[:kc], KS[:kc], AS[:kc]) + call(P, CS[kc:], KS[kc:], AS[kc:], CP, KP, AP)
+            rev = call(P[::-1], CS[::-1], KS[::-1], AS[::-1], CP[::-1], KP[::-1], AP[::-1])[::-1]
+        for what, other in (("the sum over the two parts of the s functions", split), ("the call with points and functions in reverse order", rev)):
+            bad = np.flatnonzero(np.abs(full - other) > 1e-12 * scale + 1e-300)
+            if bad.size:
+                i = int(bad[0])
+                ctx.fail("oracle", key, f"{desc}: at point {i} the full call gives {float(full[i])!r}, {what} {float(other[i])!r}",
+                         witness={"n": n, "ks": ks, "kp": kp, "index": i}, snippet=snippet)
+                return True
+    perm = rng.permutation(n)
+    with np.errstate(all="ignore"):
+        shuffled = call(P[perm], CS, KS, AS, CP, KP, AP)
+    if not np.array_equal(shuffled, full[perm]):
+        i = int(np.flatnonzero(shuffled != full[perm])[0])
+        ctx.fail("oracle", key, f"{desc}: with the points shuffled, the value at point {P[perm][i].tolist()} is {float(shuffled[i])!r}, in the original order {float(full[perm][i])!r}",
+                 witness={"n": n, "ks": ks, "kp": kp}, snippet=snippet)
+        return True
+    idx = [i for i in _sample_idx(ctx, n, 6)][:24]
+    sub = dict(points=P[idx].tolist(), centers_s=CS.tolist(), coeffs_s=KS.tolist(), alphas_s=AS.tolist(), centers_p=CP.tolist(), coeffs_p=KP.tolist(), alphas_p=AP.tolist())
+    want, sc = _pot_reference_exact(cb, sub, nz)
+    if np.any(np.abs(full[idx] - want) > 1e-11 * sc + 1e-300):
+        j = int(np.flatnonzero(np.abs(full[idx] - want) > 1e-11 * sc + 1e-300)[0])
+        ctx.fail("oracle", key, f"{desc}: entry {idx[j]} is {float(full[idx[j]])!r}, the weighted sum at the exact distances {float(want[j])!r}",
+                 witness={"n": n, "ks": ks, "kp": kp, "index": idx[j]}, snippet=SNIPPET_FAR.format(args=dict(sub, points=[sub["points"][j]]), normalized=nz, tol=1e-11))
+        return True
+    return False
+
+
+SNIPPET_INPLACE = """import warnings; warnings.filterwarnings('ignore')
+import numpy as np
+from grid.coulomb import coulomb_potential, coulomb_gaussian_s, coulomb_gaussian_p
+args = {args!r}
+A = {{k: (np.array(v, dtype=float).reshape(-1, 3) if k in ('points', 'centers_s', 'centers_p') else np.array(v, dtype=float)) for k, v in args.items()}}
+edits = {edits!r}        # (argument, kind of in-place edit) applied one after the other to the SAME array objects
+def fresh():
+    return coulomb_potential(**{{k: v.copy() for k, v in A.items()}})
+first = coulomb_potential(**A)
+assert np.array_equal(first, fresh())
+for name, how in edits:
+    x = A[name]
+    if how == 'scale':
+        x *= 1.5
+    elif how == 'assign':
+        x[:] = x[::-1].copy() + (0.25 if name.startswith('alphas') else 0.125)
+    elif how == 'one-entry':
+        x[(0,) * x.ndim] += 0.375
+    got = coulomb_potential(**A)
+    assert np.array_equal(got, fresh()), f'after the in-place edit {{how}} of {{name}} the call on the same objects gives {{got.tolist()}}, on fresh copies of the new contents {{fresh().tolist()}}'
+r = np.array({radii!r}); a = {alpha!r}
+for f in (coulomb_gaussian_s, coulomb_gaussian_p):
+    f(r, a)
+    for how in ('scale', 'assign', 'one-entry', 'zero'):
+        if how == 'scale':
+            r *= 2.0
+        elif how == 'assign':
+            r[:] = r[::-1].copy()
+        elif how == 'one-entry':
+            r[1] = 0.77
+        else:
+            r[2] = 0.0
+        got = f(r, a)
+        assert np.array_equal(got, f(r.copy(), a)), f'radii edited in place ({{how}}): {{got.tolist()}} vs {{f(r.copy(), a).tolist()}} on a fresh copy of {{r.tolist()}}'
+    r[:] = {radii!r}
+"""
+
+
+def _check_inplace(ctx: Ctx, cb, thr):
+    """Class 25: the same array objects edited in place between calls (scaled, re-assigned, one entry changed), every array-valued
+    argument of coulomb_potential in turn, and the radii of the scalar functions: equal to the call on fresh copies of the new contents."""
+    ks, kp = ctx.rng.choice([2, 3]), ctx.rng.choice([1, 2])
+    cs, co, al = _rand_gaussians(ctx, ks)
+    cp, cop, alp = _rand_gaussians(ctx, kp)
+    args = dict(points=[[ctx.rng.uniform(-2, 2) for _ in range(3)] for _ in range(3)] + [list(cs[0])], centers_s=cs, coeffs_s=[c or 1.0 for c in co], alphas_s=[min(a, 50.0) for a in al],
+                centers_p=cp, coeffs_p=[c or 0.5 for c in cop], alphas_p=[min(a, 50.0) for a in alp])
+    A = {k: (np.array(v, dtype=float).reshape(-1, 3) if k in ("points", "centers_s", "centers_p") else np.array(v, dtype=float)) for k, v in args.items()}
+    edits = [(n, ctx.rng.choice(["scale", "assign", "one-entry"])) for n in POT_NAMES] + [(ctx.rng.choice(POT_NAMES), h) for h in ("scale", "assign", "one-entry")]
+    radii = [0.0, 1e-13, 0.3, 1.0, 2.5, 7.0]
+    alpha = 10.0 ** ctx.rng.uniform(-1, 3)
+    snippet = SNIPPET_INPLACE.format(args=args, edits=edits, radii=radii, alpha=alpha)
+
+    def fresh():
+        with np.errstate(all="ignore"):
+            return cb.coulomb_potential(**{k: v.copy() for k, v in A.items()})
+    with np.errstate(all="ignore"):
+        first = cb.coulomb_potential(**A)
+    if not np.array_equal(first, fresh()):
+        ctx.fail("oracle", "coulomb.coulomb_potential:in-place-edit", "coulomb_potential on the same objects twice differs from the call on copies", witness={"args": args}, snippet=snippet)
+        return True
+    for name, how in edits:
+        x = A[name]
+        if how == "scale":
+            x *= 1.5
+        elif how == "assign":
+            x[:] = x[::-1].copy() + (0.25 if name.startswith("alphas") else 0.125)
+        else:
+            x[(0,) * x.ndim] += 0.375
+        ctx.tagc("oracle:in-place-edit:" + name)
+        with np.errstate(all="ignore"):
+            got = cb.coulomb_potential(**A)
+        new = {k: v.tolist() for k, v in A.items()}
+        ref = _pot_reference_exact(cb, new, True)
+        want = fresh()
+        if not np.array_equal(got, want) or ref is None or np.any(np.abs(got - ref[0]) > 1e-11 * ref[1] + 1e-300):
+            ctx.fail("oracle", "coulomb.coulomb_potential:in-place-edit",
+                     f"after the in-place edit '{how}' of the {name} array (same object as in the previous call) coulomb_potential = {got.tolist()}; on fresh copies of the new contents "
+                     f"{want.tolist()}; weighted sum at the new contents {None if ref is None else ref[0].tolist()}",
+                     witness={"args_before_edits": args, "edits": edits, "contents_now": new}, snippet=snippet)
+            return True
+    for kind, fn in (("s", cb.coulomb_gaussian_s), ("p", cb.coulomb_gaussian_p)):
+        r = np.array(radii)
+        with np.errstate(all="ignore"):
+            fn(r, alpha)
+            for how in ("scale", "assign", "one-entry", "zero"):
+                if how == "scale":
+                    r *= 2.0
+                elif how == "assign":
+                    r[:] = r[::-1].copy()
+                elif how == "one-entry":
+                    r[1] = 0.77
+                else:
+                    r[2] = 0.0
+                ctx.tagc("oracle:in-place-edit:r")
+                got = fn(r, alpha)
+                now = r.copy()
+                bad = not np.array_equal(got, fn(now.copy(), alpha))
+                for g, x in zip(got, now):
+                    ref = _closed_form_mp(kind, alpha, float(x), True)
+                    bad = bad or not abs(float(g) - ref) <= 1e-10 * abs(ref)
+                if bad:
+                    ctx.fail("oracle", f"coulomb.coulomb_gaussian_{kind}:in-place-edit", f"after the in-place edit '{how}' of the radial array (now {now.tolist()}) coulomb_gaussian_{kind}(r, {alpha!r}) = "
+                             f"{got.tolist()}, on a fresh copy {fn(now.copy(), alpha).tolist()}", witness={"radii_now": now.tolist(), "alpha": alpha}, snippet=snippet)
+                    return True
+    return False
+
+
+FRESH_BATTERY = """import warnings; warnings.filterwarnings('ignore')
+import json, numpy as np
+import grid.coulomb as cb
+r = np.array([0.0, 1e-13, 0.25, 1.0, 3.5]); out = {}
+for a in (0.3, 2.0, 1e6):
+    for nz in (True, False):
+        out[f's{a}{nz}'] = cb.coulomb_gaussian_s(r.copy(), a, nz).tolist(); out[f'p{a}{nz}'] = cb.coulomb_gaussian_p(r.copy(), a, nz).tolist()
+P = np.array([[0.5, -0.25, 1.0], [0.0, 0.0, 0.0], [1.0, 2.0, -0.5]]); C = np.array([[0.5, -0.25, 1.0], [0.5, -0.25, 1.0 + 1e-9], [-1.0, 0.0, 0.0]])
+K = np.array([1.0, -0.5, 2.0]); A = np.array([2.0, 1e8, 0.7])
+for nz in (True, False):
+    out[f'pot{nz}'] = cb.coulomb_potential(P, C, K, A, C[::-1].copy(), K, A, normalized=nz).tolist(); out[f'pots{nz}'] = cb.coulomb_potential(P, C, K, A, normalized=nz).tolist()
+for e in ORDER:
+    c, a = cb.load_atomic_gaussian_params(e); out[f'load{e}'] = [c.tolist(), a.tolist()]
+print(json.dumps(out))
+"""
+
+
+def _check_fresh_process(ctx: Ctx, cb):
+    """Class 26 (here: module-level state only): a fixed battery -- scalar functions on a grid with r = 0, coulomb_potential with a
+    point on a centre and two centres 1e-9 apart, the loader for every stored element -- evaluated now, in this process (after
+    everything the check has done, elements in one order), equals the same battery in a fresh interpreter (elements in the other order)."""
+    import subprocess
+    import sys
+    stored = list(_json_tables())
+    pre = f"import sys; sys.path.insert(0, {str(SRC.parent)!r})\n"
+    env = {}
+    with np.errstate(all="ignore"):
+        import contextlib
+        import io
+        buf = io.StringIO()
+        with contextlib.redirect_stdout(buf):
+            exec(compile(FRESH_BATTERY.replace("ORDER", repr(stored)), "<battery>", "exec"), env)  # noqa: S102
+    here = json.loads(buf.getvalue())
+    proc = subprocess.run([sys.executable, "-c", pre + FRESH_BATTERY.replace("ORDER", repr(stored[::-1]))], capture_output=True, text=True, timeout=300, cwd="/")
+    if proc.returncode != 0:
+        raise RuntimeError("fresh-process battery failed: " + proc.stderr[-500:])
+    fresh = json.loads(proc.stdout.strip().splitlines()[-1])
+    for k in here:
+        if here[k] != fresh[k]:
+            ctx.fail("oracle", "coulomb:fresh-process", f"battery entry {k!r}: in this process (after the other calls of the check) {here[k]}, in a fresh interpreter {fresh[k]}",
+                     witness={"entry": k, "in_process": here[k], "fresh": fresh[k]})
+            return True
+    return False
+
+
+def _direct_precision_cases(ctx: Ctx, thr):
+    """Class 23: the same values as float64 / longdouble / float32 / float16 / integers, handed over directly."""
+    out = []
+    for dt, exact in ((np.longdouble, True), (np.float32, False), (np.float16, False), (np.int64, False), (np.uint8, False), (np.int16, False)):
+        base = np.array([0.0, 1.0, 2.0, 3.0, 5.0, 0.5, 0.25, 7.0]) if np.dtype(dt).kind in "iu" or dt is np.float16 else np.array([0.0, 1e-13, thr, 0.3, 1.0, 2.5, 1 / 3, 7.0])
+        out.append((np.dtype(dt).name, (np.rint(base) if np.dtype(dt).kind in "iu" else base).astype(dt)))
+    return out
+
+
+def _check_direct_precision(ctx: Ctx, cb, thr):
+    fns = {"s": cb.coulomb_gaussian_s, "p": cb.coulomb_gaussian_p}
+    bad_any = False
+    for name, arr in _direct_precision_cases(ctx, thr):
+        keep = arr.copy()
+        for kind in ("s", "p"):
+            for a in (2.0, 10.0 ** ctx.rng.uniform(-1, 4)):
+                ctx.tagc("oracle:direct-precision:r:" + name)
+                try:
+                    with np.errstate(all="ignore"):
+                        got = fns[kind](arr, a)
+                        again = fns[kind](arr, a)
+                        ref = fns[kind](np.array(keep, dtype=float), a)
+                except Exception as e:  # noqa: BLE001
+                    ctx.fail("oracle", f"coulomb.coulomb_gaussian_{kind}:direct-precision", f"coulomb_gaussian_{kind}(radii as {name} array {keep.tolist()}, alpha={a!r}) raised {type(e).__name__}: {e}",
+                             witness={"radii": [float(x) for x in keep], "dtype": name, "alpha": a})
+                    bad_any = True
+                    continue
+                good = got.dtype == np.float64 and got.shape == keep.shape and np.array_equal(got, ref) and np.array_equal(got, again) and np.array_equal(arr, keep) and arr.dtype == keep.dtype
+                for g, x in zip(got, keep):
+                    refm = _closed_form_mp(kind, a, float(x), True)
+                    good = good and abs(float(g) - refm) <= 1e-10 * abs(refm)
+                if not good:
+                    ctx.fail("oracle", f"coulomb.coulomb_gaussian_{kind}:direct-precision", f"coulomb_gaussian_{kind}(radii as {name} array {[float(x) for x in keep]}, alpha={a!r}) = {np.asarray(got).tolist()} "
+                             f"[{np.asarray(got).dtype}]; the float64 call on the same values gives {ref.tolist()} (second call {np.asarray(again).tolist()}, array afterwards {[float(x) for x in arr]})",
+                             witness={"radii": [float(x) for x in keep], "dtype": name, "alpha": a},
+                             snippet=("import numpy as np\nfrom grid.coulomb import coulomb_gaussian_" + kind + f" as f\nr = np.array({[float(x) for x in keep]!r}).astype(np.{name}); k = r.copy()\n"
+                                      f"g = f(r, {a!r}); g2 = f(r, {a!r}); ref = f(np.array(k, dtype=float), {a!r})\n"
+                                      "assert g.dtype == np.float64 and np.array_equal(g, ref) and np.array_equal(g, g2) and np.array_equal(r, k), (g.tolist(), ref.tolist(), r.tolist())\n"))
+                    bad_any = True
+    # the arrays of coulomb_potential as longdouble / float32 / float16 / integers (values exactly representable in each)
+    P = np.array([[0.0, 0.0, 0.0], [0.5, -0.25, 1.0], [2.0, 1.0, -3.0]]); C = np.array([[0.0, 0.0, 0.0], [1.0, 0.0, -0.5]]); K = np.array([1.0, -0.5]); A = np.array([2.0, 32.0])
+    with np.errstate(all="ignore"):
+        ref = cb.coulomb_potential(P, C, K, A, C, K, A)
+    for dt in (np.longdouble, np.float32, np.float16):
+        for which in (POT_NAMES, ("points",), ("centers_s", "centers_p"), ("coeffs_s",), ("alphas_s", "alphas_p")):
+            vals = dict(zip(POT_NAMES, (P, C, K, A, C, K, A)))
+            call = {k: (v.astype(dt) if k in which else v.copy()) for k, v in vals.items()}
+            snap = {k: v.copy() for k, v in call.items()}
+            ctx.tagc("oracle:direct-precision:pot:" + np.dtype(dt).name)
+            try:
+                with np.errstate(all="ignore"):
+                    got = cb.coulomb_potential(**call)
+                    again = cb.coulomb_potential(**call)
+            except Exception as e:  # noqa: BLE001
+                got = again = f"{type(e).__name__}: {e}"
+            if not (isinstance(got, np.ndarray) and got.dtype == np.float64 and np.array_equal(got, ref) and np.array_equal(again, ref)
+                    and all(np.array_equal(call[k], snap[k]) and call[k].dtype == snap[k].dtype for k in call)):
+                ctx.fail("oracle", "coulomb.coulomb_potential:direct-precision", f"coulomb_potential with {list(which)} as {np.dtype(dt).name} arrays (values exactly representable) = "
+                         f"{got.tolist() if isinstance(got, np.ndarray) else got}; float64 arguments give {ref.tolist()}", witness={"dtype": np.dtype(dt).name, "which": list(which)},
+                         snippet=("import numpy as np\nfrom grid.coulomb import coulomb_potential as f\n"
+                                  "P = np.array([[0.0, 0.0, 0.0], [0.5, -0.25, 1.0], [2.0, 1.0, -3.0]]); C = np.array([[0.0, 0.0, 0.0], [1.0, 0.0, -0.5]]); K = np.array([1.0, -0.5]); A = np.array([2.0, 32.0])\n"
+                                  f"v = dict(points=P, centers_s=C, coeffs_s=K, alphas_s=A, centers_p=C, coeffs_p=K, alphas_p=A); which = {list(which)!r}\n"
+                                  f"c = {{k: (x.astype(np.{np.dtype(dt).name}) if k in which else x.copy()) for k, x in v.items()}}; s = {{k: x.copy() for k, x in c.items()}}\n"
+                                  "g = f(**c); g2 = f(**c)\nassert g.dtype == np.float64 and np.array_equal(g, f(**v)) and np.array_equal(g, g2) and all(np.array_equal(c[k], s[k]) for k in c)\n"))
+                bad_any = True
+    # alpha as a longdouble scalar: information only (the documented type is float; SciPy's erf has no long-double loop)
+    try:
+        with np.errstate(all="ignore"):
+            v = cb.coulomb_gaussian_s(np.array([0.5]), np.longdouble(2.0))
+        ctx.tagc("s:info:alpha-longdouble-" + ("float64-answer" if np.array_equal(v, cb.coulomb_gaussian_s(np.array([0.5]), 2.0)) else "other-answer"))
+    except TypeError:
+        ctx.tagc("s:info:alpha-longdouble-TypeError")
+    return bad_any
+
+
+def _oracle_round5(ctx: Ctx, cb, utils, thr, large, parts):
+    # (t) class 21 + 22: sizes right after powers of two and {1,2,5} 10^k, in random / ascending / descending order
+    sizes = list(BIG_SIZES_QUICK) + (list(BIG_SIZES_THOROUGH) if ctx.thorough else [])
+    for j, n in enumerate(sizes):
+        for kind in ("s", "p"):
+            order = ("random", "descending", "ascending")[(j + (kind == "p")) % 3]
+            ctx.tagc(f"oracle:large-array:{kind}:{n}:{order}")
+            parts.run(f"coulomb.coulomb_gaussian_{kind}:large-array", _check_big_scalar, ctx, cb, kind, n, 10.0 ** ctx.rng.uniform(-2, 6), ctx.rng.random() < 0.7, order, thr)
+    for n, ks, kp in [(1025, 3, 2), (4097, 2, 1), (7, 33, 17), (3, 129, 5)] + ([(65537, 3, 2), (2 ** 19 + 1, 2, 1), (5, 1025, 257)] if ctx.thorough else []):
+        ctx.tagc(f"oracle:large-arrays:pot:N{n}-Ks{ks}-Kp{kp}")
+        parts.run("coulomb.coulomb_potential:large-arrays", _check_big_pot, ctx, cb, n, ks, kp, ctx.rng.random() < 0.6)
+
+    # (u) class 22: descending radial grids the library produces itself
+    def part_descending_grids():
+        from grid.onedgrid import GaussLegendre
+        from grid.rtransform import MultiExpRTransform
+        for g in (MultiExpRTransform(1e-3, 20.0).transform_1d_grid(GaussLegendre(ctx.rng.choice([7, 12, 33]))),
+                  MultiExpRTransform(1e-5, 5.0).transform_1d_grid(GaussLegendre(9))):
+            pts = np.array(g.points, dtype=float, copy=True)
+            for kind, fn in (("s", cb.coulomb_gaussian_s), ("p", cb.coulomb_gaussian_p)):
+                a = 10.0 ** ctx.rng.uniform(-2, 3)
+                ctx.tagc("oracle:descending-grid:" + kind)
+                with np.errstate(all="ignore"):
+                    got = fn(g.points, a)
+                    asc = fn(np.sort(pts), a)
+                order = np.argsort(pts)
+                bad = not np.array_equal(got[order], asc) or not np.array_equal(np.asarray(g.points, dtype=float), pts)
+                for v, x in zip(got, pts):
+                    ref = _closed_form_mp(kind, a, float(x), True)
+                    bad = bad or not abs(float(v) - ref) <= 1e-10 * abs(ref)
+                if bad:
+                    ctx.fail("oracle", f"coulomb.coulomb_gaussian_{kind}:order", f"coulomb_gaussian_{kind} on the points of a MultiExp-transformed grid ({'descending' if pts[0] > pts[-1] else 'ascending'}: "
+                             f"{pts.tolist()}), alpha={a!r}: {got.tolist()}; on the same radii sorted ascending {asc.tolist()}",
+                             witness={"radii": pts.tolist(), "alpha": a}, snippet=SNIPPET_REUSE.format(base=pts.tolist(), variant="plain", calls=[(kind, a, True)]))
+    parts.run("coulomb.coulomb_gaussian:descending-grids", part_descending_grids)
+    # (v) class 23: precisions given directly
+    parts.run("coulomb:direct-precision", _check_direct_precision, ctx, cb, thr)
+    # (w) class 25: in-place edits of the same objects between calls
+    for _ in range(6 if large else 2):
+        parts.run("coulomb.coulomb_potential:in-place-edit", _check_inplace, ctx, cb, thr)
+    # (x) class 26: the process after the whole check against a fresh interpreter
+    ctx.tagc("oracle:fresh-process")
+    parts.run("coulomb:fresh-process", _check_fresh_process, ctx, cb)
+
+
+def _corr_round5(ctx: Ctx, cb, thr):
+    """Correspondence: 1025 and 4097 radii in one call (descending / shuffled), entry by entry against the generated closed form;
+    coulomb_potential on 1025 points and on 33 + 17 centres through the driver; radii as longdouble / float16 / integer arrays."""
+    fns = {"s": cb.coulomb_gaussian_s, "p": cb.coulomb_gaussian_p}
+    for n, order in ((1025, "descending"), (4097, "random")):
+        kind, nz, a = ctx.rng.choice("sp"), ctx.rng.random() < 0.6, 10.0 ** ctx.rng.uniform(-2, 5)
+        r = _big_radii(ctx, n, a, thr)
+        if order == "descending":
+            r = np.sort(r)[::-1].copy()
+        ans = driver_batch([f"C17.{kind} {f2b(float(x))} {f2b(a)} {int(nz)}" for x in r])
+        with np.errstate(all="ignore"):
+            got = fns[kind](r.copy(), a, normalized=nz)
+        ctx.count(["big", kind, n, a, nz, order], nontrivial=True, tag=f"{kind}:large-array:{n}:{order}", n=n)
+        if got.shape != (n,):
+            ctx.fail("corr", f"coulomb_gaussian_{kind}:large-array", f"coulomb_gaussian_{kind} on {n} radii: shape {got.shape}", witness={"n": n, "alpha": a})
+            continue
+        for i, (g, line) in enumerate(zip(got, ans)):
+            tag, t = _ans(line)
+            if tag != "ok" or not close(float(g), t.flt(), rtol=RTOL):
+                ctx.fail("corr", f"coulomb_gaussian_{kind}:large-array", f"coulomb_gaussian_{kind} on {n} radii ({order}), entry {i} (r={float(r[i])!r}), alpha={a!r}, normalized={nz}: "
+                         f"implementation {float(g)!r}, generated model {t.flt() if tag == 'ok' else tag!r}", witness={"r": float(r[i]), "alpha": a, "normalized": nz, "index": i, "n": n})
+                break
+    cases = []
+    for n, ks, kp in ((1025, 2, 1), (5, 33, 17)):
+        rng = ctx.np_rng
+        args = dict(points=rng.uniform(-3, 3, (n, 3)).tolist(), centers_s=rng.uniform(-2, 2, (ks, 3)).tolist(), coeffs_s=rng.uniform(-2, 2, ks).tolist(),
+                    alphas_s=(10.0 ** rng.uniform(-2, 4, ks)).tolist(), centers_p=rng.uniform(-2, 2, (kp, 3)).tolist(), coeffs_p=rng.uniform(-2, 2, kp).tolist(),
+                    alphas_p=(10.0 ** rng.uniform(-2, 3, kp)).tolist())
+        args["points"][0] = list(args["centers_s"][0]); args["points"][-1] = list(args["centers_p"][-1])
+        cases.append((_args_to_call(args, ctx.rng.random() < 0.5), "kw", f"N{n}-Ks{ks}-Kp{kp}"))
+    answers = driver_batch([_pot_line(c) for c, _, _ in cases])
+    for (call, route, label), line in zip(cases, answers):
+        itag, v = _impl_pot(cb, call, route)
+        mtag, t = _ans(line)
+        ctx.count(["pot-big", label], nontrivial=True, tag="pot:r5:" + label)
+        if itag != mtag or itag != "ok":
+            ctx.fail("corr", "coulomb_potential", f"coulomb_potential ({label}): implementation {itag}, generated model {mtag}", witness={"label": label})
+            continue
+        mshape, mv = t.vec(), t.fvec()
+        scale = _pot_scale(cb, call)
+        bad = [i for i, (a_, b, sc) in enumerate(zip(v, mv, scale)) if not close(float(a_), b, rtol=RTOL, scale=max(float(sc), abs(b)))]
+        if list(v.shape) != mshape or bad:
+            i = bad[0] if bad else -1
+            ctx.fail("corr", "coulomb_potential", f"coulomb_potential ({label}): shape {list(v.shape)} vs {mshape}; first differing entry {i}: implementation "
+                     f"{float(v[i]) if bad else None!r}, generated model {mv[i] if bad else None!r}",
+                     witness=dict(_call_witness(dict(call, points=[np.asarray(call['points'])[i].tolist()])), index=i) if bad else {"label": label})
+    for name, arr in _direct_precision_cases(ctx, thr):
+        kind, a = ctx.rng.choice("sp"), float(ctx.rng.choice([1.0, 2.0, 16.0]))
+        ans = driver_batch([f"C17.{kind} {f2b(float(x))} {f2b(a)} 1" for x in arr])
+        ctx.count(["direct-precision", name, kind, a], nontrivial=True, tag=f"{kind}:direct:{name}")
+        try:
+            with np.errstate(all="ignore"):
+                got = fns[kind](arr, a)
+            ok = got.shape == arr.shape and all(_ans(l)[0] == "ok" and close(float(g), _ans(l)[1].flt(), rtol=RTOL) for g, l in zip(got, ans))
+            what = np.asarray(got).tolist()
+        except Exception as e:  # noqa: BLE001
+            ok, what = False, f"{type(e).__name__}: {e}"
+        if not ok:
+            ctx.fail("corr", f"coulomb_gaussian_{kind}:container", f"coulomb_gaussian_{kind}(radii as {name} array {[float(x) for x in arr]}, alpha={a!r}): {what} vs the generated model on the same values",
+                     witness={"r": [float(x) for x in arr], "alpha": a, "normalized": True, "container": name})
+
+
 def oracle(ctx: Ctx, budget: str):
     cb = importlib.import_module("grid.coulomb")
     utils = importlib.import_module("grid.utils")
@@ -2675,4 +3190,6 @@ def oracle(ctx: Ctx, budget: str):
     _oracle_reuse(ctx, cb, thr, large, parts)
     # round 4
     _oracle_round4(ctx, cb, utils, thr, large, parts)
+    # round 5
+    _oracle_round5(ctx, cb, utils, thr, large, parts)
     parts.finish()
